@@ -35,10 +35,10 @@ def structures(tier):
     # attribution: items A=announce (map_a record), L<k>=launch window with k images, S<d>:<n>=sample with d data records
     # and a header count fixed to n (None = symbolic 0..9)
     att = [['S1:2'], ['A', 'S1:2'], ['A', 'A', 'S1:2'], ['A', 'A', 'A', 'S1:2'], ['A', 'S1:1', 'A', 'S1:1'],
-           ['L2', 'S1:2'], ['A', 'L1', 'S1:1'], ['L2', 'A', 'S1:1']]
+           ['L2', 'S1:2'], ['A', 'L1', 'S1:1'], ['L2', 'A', 'S1:1'], ['S1:1', 'L2', 'S1:1=']]
     sel = [['S0:None'], ['S1:None'], ['S2:None'], ['A', 'S2:None']]
     if tier == 'thorough':
-        att += [['A', 'A', 'A', 'A', 'S1:1'], ['A', 'A', 'A', 'S1:3'], ['L2', 'L2', 'S1:1'], ['A', 'A', 'S1:1', 'A', 'S1:2'],
+        att += [['A', 'S1:1', 'L2', 'S1:1='], ['S1:1', 'A', 'S1:1='], ['A', 'A', 'A', 'A', 'S1:1'], ['A', 'A', 'A', 'S1:3'], ['L2', 'L2', 'S1:1'], ['A', 'A', 'S1:1', 'A', 'S1:2'],
                 ['A', 'A', 'A', 'A', 'S1:2']]
         sel += [['A', 'A', 'S1:None']]
     for s in att + sel:
@@ -96,7 +96,8 @@ def run(ctx, st):
             for a in inner:
                 announced.append((a[0], a[1], len(events)))
         else:
-            d, n = it[1:].split(':')
+            same_frames = it.endswith('=')        # this sample repeats the previous sample's frames
+            d, n = it.rstrip('=')[1:].split(':')
             d = int(d)
             si = len(samples)
             sts = ctx.int('ts%d' % si)
@@ -114,6 +115,9 @@ def run(ctx, st):
             words = []
             for j in range(d):
                 w = [ctx.int('f%d_%d_%d' % (si, j, q)) for q in range(4)]
+                if same_frames:
+                    for q in range(4):
+                        ctx.assume(w[q] == samples[-1]['words'][4 * j + q])
                 words += w
                 events.append(sweep.make_event(ts, w, TID, by_name['PERF_STK_UData'])); ts += 1
             events.append(sweep.make_event(ts, [flags, 0, 0, 0], TID, pe | 2)); ts += 1
